@@ -92,7 +92,8 @@ pub fn dso_model(k: &Kernel, phdr: u64, phnum: u64) -> Option<DsoModel> {
             }
             let nb = k.read_mem_captured(l_name, avail);
             let end = nb.iter().position(|c| *c == 0).unwrap_or(nb.len());
-            name = String::from_utf8(nb[..end].to_vec()).ok();
+            // the format stores UTF-16: bytes that are not UTF-8 are recorded with replacement characters
+            name = Some(String::from_utf8_lossy(&nb[..end]).into_owned());
         }
         links.push((l_addr, name, l_ld));
         guard += 1;
@@ -266,8 +267,6 @@ pub fn check(sc: &Scenario, res: &RunResult) -> Vec<Violation> {
     if let (Some(phnum), Some(phdr)) = (phnum, phdr) {
         if let Some(m) = dso_model(k, phdr, phnum) {
             match &dec.dso {
-                // a name that is not UTF-8 cannot be recorded: the stream may then be left out
-                None if m.links.iter().any(|l| l.1.is_none()) => {}
                 None => out.push(v("C18", "dso-missing", format!("linker list with {} objects is reachable from phdr {:#x} but no stream was written", m.links.len(), phdr))),
                 Some(ds) => {
                     let got: Vec<(u64, String, u64)> = ds.links.iter().map(|(a, n, l)| (*a, n.clone().unwrap_or_default(), *l)).collect();
